@@ -219,9 +219,10 @@ def generate(rng, tier):
         for q in ((v[0] + rng.uniform(0.2, 0.9) * w, v[1]), (v[0] - rng.uniform(0.2, 2.0), v[1]), (v[0] + rng.uniform(0.2, 0.9) * w, v[1] + rng.choice([-1e-3, 1e-3]))):
             yield winding_case(els, list(q), 'curve', 'tiny-monotone-piece')
     n = 60 if tier == 'quick' else 4000
-    for _ in range(n):
-        # closed-loop segments (end point == start point): a single segment that encloses area
-        for how in ('grid', 'generic'):
+    for it_ in range(n):
+        # closed-loop segments (end point == start point): a single segment that encloses area (every round in the quick tier, every
+        # fifth round in the thorough tier, whose exact oracle is the bottleneck)
+        for how in (('grid', 'generic') if (tier == 'quick' or it_ % 5 == 0) else ()):
             for els, st in ((teardrop(rng, how), f'{how}-teardrop'), (rand_path(rng, how, 'LCOO'), f'{how}-loop-segments')):
                 for q in queries(rng, els, 5):
                     yield winding_case(els, list(q), 'curve', st)
